@@ -17,7 +17,8 @@ extra = []
 for a in sys.argv[2:]:
     if a.startswith('--fn='):
         extra += ['--verify-root', '--verify-function', a[5:]]
-r = U.run_verus(u, extra=extra or None)
+u, r = U.build_and_run(name, cs, mode, extra=extra or None)
+print('AUTOSTUBS:', u.autostubs) if u.autostubs else None
 print('summary', r['summary'], 'wall', r['wall_s'], 'smt_ms', r['smt_ms'])
 for k in ('frontend_errors', 'undecided', 'diags'):
     for d in r[k]:
